@@ -166,6 +166,9 @@ class BcWorld(World):
             k = int(rng.integers(1, len(self.un) + 1))
             op["unknowns"] = [self.un[i] for i in rng.permutation(len(self.un))[:k]]
             sc = 0.05 if self.actor == "HyperElastic" else 1.0
+            if self.actor != "HyperElastic" and rng.random() < 0.25:
+                # load levels decades apart on one object (unloading, cyclic loads): a linear solve knows no units
+                sc = float(f"{10 ** rng.uniform(-6, 6):.3e}")
             op["vals"] = {"form": ["const", "func"][int(rng.integers(2))], "aseed": int(rng.integers(1 << 30)), "scale": sc}
         elif name == "backend":
             op["to"] = ["scipy", "cg", "bicg", "gmres", "lgmres"][int(rng.integers(5))]
